@@ -362,14 +362,14 @@ func mRunCluster(idx int) *mResult {
 					time.Sleep(time.Millisecond)
 					continue
 				}
-				switch k := r.Intn(12); {
+				switch k := r.Intn(14); {
 				case k < 5:
 					doWrite(node, r)
 				case k < 8:
 					doRead(node)
 				case k < 10:
 					doLookup(node, r)
-				case k < 11:
+				case k < 12:
 					doAuxW(node)
 				default:
 					doAuxR(node, r)
@@ -605,7 +605,7 @@ func TestVerifC03C(t *testing.T) {
 		}
 		return
 	}
-	ncases := vw.Scale(6, 150)
+	ncases := vw.Scale(8, 150)
 	tmp, err := ioutil.TempDir("", "c03c")
 	if err != nil {
 		t.Fatal(err)
